@@ -108,6 +108,27 @@ class SymCtx(BaseCtx):
         self.path_sat = False
         self.notes = {}
         self.pending = []
+        self.zsyms = {}
+
+    def zconst(self, name, sort, default=None):
+        """a symbol of a non-real z3 sort (Int, String, BitVec ...) for stand-alone solver queries inside a harness.
+        Symbolic mode: the raw z3 constant (build formulas with z3 and wrap them in SymBool for require()).
+        Pinned mode: the z3 value of `default`. Concrete mode (replay): the python int/str from the model, else `default`."""
+        if name in self.zsyms:
+            return self.zsyms[name]
+        if self.pinned:
+            if sort == z3.IntSort():
+                c = z3.IntVal(default)
+            elif sort == z3.StringSort():
+                c = z3.StringVal(default)
+            elif z3.is_bv_sort(sort):
+                c = z3.BitVecVal(default, sort.size())
+            else:
+                raise Unsupported(f"zconst default for sort {sort}")
+        else:
+            c = z3.Const(name, sort)
+        self.zsyms[name] = c
+        return c
 
     def real(self, name, pos=False, nonzero=False, lo=None, hi=None, integer=False):
         if name in self.symbols:
@@ -240,6 +261,14 @@ class SymCtx(BaseCtx):
             except Exception:
                 v = Fraction(0)
             out[name] = f"{v.numerator}/{v.denominator}"
+        for name, c in self.zsyms.items():
+            v = m.eval(c, model_completion=True)
+            if z3.is_int_value(v) or z3.is_bv_value(v):
+                out[name] = f"int:{v.as_long()}"
+            elif z3.is_string_value(v):
+                out[name] = "str:" + v.as_string()
+            else:
+                out[name] = "sexpr:" + v.sexpr()
         return out
 
     def _models(self, s, term):
@@ -313,6 +342,17 @@ class ConcreteCtx(BaseCtx):
         else:
             v = float(_pin_value(self.seed, name, pos, nonzero, lo, hi, integer))
         self.symbols[name] = v
+        return v
+
+    def zconst(self, name, sort, default=None):
+        v = (self.model or {}).get(name)
+        if v is None:
+            return default
+        kind, _, body = v.partition(":")
+        if kind == "int":
+            return int(body)
+        if kind == "str":
+            return body
         return v
 
     def reals(self, name, shape, **kw):
